@@ -1,13 +1,26 @@
 //! C05 — every emitted font is a well-formed, internally consistent OpenType file.
 //!
-//! Inputs: every compilable source under /repo/resources/testdata (and, later, generated
-//! designs) x component / feature / naming option sets, compiled with the product binary.
+//! Two input families, one oracle:
+//!  * FIXTURES: every compilable source under /repo/resources/testdata x component / feature /
+//!    naming option sets, compiled with the product binary.
+//!  * GENERATED: the complete product of a set of small structural toggles of a `dgen` design
+//!    (axes / master layout, `.notdef`, glyph inventory, advances, composites, kerning, anchors,
+//!    feature code, vertical metrics, designspace rules, named instances), each compiled in process
+//!    (`fcx::compile`) under every option set of the tier. The toggles and their values are
+//!    documented on `Toggles`, the domains per tier are `QUICK` (7 488 designs x 4 option sets) and
+//!    `THOROUGH` (70 560 designs x 8 option sets, + the 11 remaining subsets of the four component
+//!    options on designs with composites: about 1.19 million compiles). A violation is keyed by the
+//!    issue code and the features of the smallest failing case (`report_generated_hits`).
+//!
 //! Oracle: `otref::check_font` — raw-byte sfnt checker + complete read-fonts traversal +
-//! cross-table reference bounds + skrifa as a second reader. Only exit-0 compiles are judged.
+//! cross-table reference bounds + skrifa as a second reader. Only successful compiles are judged.
+use dgen::{Anchor, Axis, Component, Contour, Design, Glyph, Instance, Layer, Rule, plist::Plist, shapes};
+use serde::{Deserialize, Serialize};
 use serde_json::{Value, json};
 use std::{
     collections::{BTreeMap, BTreeSet},
     path::{Path, PathBuf},
+    sync::atomic::{AtomicBool, Ordering},
 };
 use vcore::{Reporter, Scratch, Tier};
 
@@ -26,13 +39,13 @@ const OPTION_SETS: [(&str, &[&str]); 8] = [
     ("keep-direction", &["--keep-direction"]),
     ("no-production-names", &["--no-production-names"]),
 ];
-/// The quick tier runs the first three option sets on every case.
+/// The quick tier runs the first three option sets on every fixture.
 const QUICK_OPTION_SETS: usize = 3;
 
 /// One source to compile.
 #[derive(Clone)]
 struct Case {
-    /// stable name: path relative to the testdata directory, or a generator case id
+    /// stable name: path relative to the testdata directory
     name: String,
     source: PathBuf,
 }
@@ -65,20 +78,1114 @@ fn fixture_cases() -> Vec<Case> {
         .collect()
 }
 
-// ------------------------------------------------------------------------------------------
-// GENERATED DESIGNS: to be filled in. Write each design below `scratch` and return it as a
-// `Case` whose `name` is the generator's stable case id.
-// ------------------------------------------------------------------------------------------
-fn generated_cases(_tier: Tier, _scratch: &Scratch) -> Vec<Case> {
-    Vec::new()
+// ==========================================================================================
+// GENERATED DESIGNS
+// ==========================================================================================
+
+/// The structural toggles of one generated design. Every field is a small integer; the case id
+/// spells all of them out (`L3-n1-i1-a0-c3-k2-m1-f2-v0-r2-s1`).
+#[derive(Clone, Copy, Debug, PartialEq, Eq, Serialize, Deserialize)]
+struct Toggles {
+    /// axes and masters:
+    /// 0 static (lone UFO); 1 wght 400..700, masters at both ends; 2 ends + full master at 550;
+    /// 3 ends + sparse layer master at 550 (glyph A, and composite AB when present);
+    /// 4 two axes (wght with an axis <map>, hidden XTRA), masters default + one per axis end;
+    /// 5 wght with the default in the middle (400, 550*, 700);
+    /// 6 two axes, all four corners + sparse layer master at wght 550
+    layout: u8,
+    /// 0 no `.notdef` in the source (the compiler makes one); 1 a drawn `.notdef`
+    notdef: u8,
+    /// 0 A, B only; 1 also space (empty), o (quadratic), c (cubic), D (three code points, one
+    /// beyond the BMP), A.sc (no code point, has a public.postscriptNames entry)
+    inv: u8,
+    /// 0 every glyph its own advance, growing with the master; 1 all glyphs the same advance,
+    /// growing with the master; 2 all glyphs the same advance at every master
+    adv: u8,
+    /// bit set: 1 flat + nested composites (depth 1, 2, 3); 2 components with 2x2 transforms (flip,
+    /// 0.5 scale, 2.5 scale, rotation); 4 a glyph with a contour and a component; 8 a non-exported
+    /// glyph used as a component
+    comps: u8,
+    /// 0 none; 1 glyph pairs; 2 group pairs + glyph/group exceptions; 3 the same with different
+    /// group membership in the last master
+    kern: u8,
+    /// 0 none; 1 base + mark anchors (top, bottom); 2 also mark-to-mark; 3 also ligature anchors
+    marks: u8,
+    /// 0 none; 1 GSUB single + ligature + ss01 with featureNames; 2 chaining contextual rule with a
+    /// nested lookup + a GPOS single adjustment; 3 both plus `table GDEF` and `table name`
+    fea: u8,
+    /// 0 no vertical metrics; 1 vhea keys in fontinfo + advance heights (vhea, vmtx, VVAR); the
+    /// heights follow `adv` (distinct / equal / equal and constant)
+    vert: u8,
+    /// designspace <rules>: 0 none; 1 one rule; 2 two rules with overlapping regions
+    rules: u8,
+    /// named instances: 0 none; 1 two
+    inst: u8,
 }
+
+const COMP_NESTED: u8 = 1;
+const COMP_XFORM: u8 = 2;
+const COMP_MIXED: u8 = 4;
+const COMP_NOEXPORT: u8 = 8;
+
+impl Toggles {
+    fn id(&self) -> String {
+        format!(
+            "L{}-n{}-i{}-a{}-c{:x}-k{}-m{}-f{}-v{}-r{}-s{}",
+            self.layout, self.notdef, self.inv, self.adv, self.comps, self.kern, self.marks, self.fea, self.vert, self.rules, self.inst
+        )
+    }
+
+    /// inverse of `id`
+    fn parse(id: &str) -> Option<Toggles> {
+        let mut v = [0u8; 11];
+        let parts: Vec<&str> = id.split('-').collect();
+        if parts.len() != 11 {
+            return None;
+        }
+        for (i, (part, prefix)) in parts.iter().zip(["L", "n", "i", "a", "c", "k", "m", "f", "v", "r", "s"]).enumerate() {
+            v[i] = u8::from_str_radix(part.strip_prefix(prefix)?, 16).ok()?;
+        }
+        Some(Toggles { layout: v[0], notdef: v[1], inv: v[2], adv: v[3], comps: v[4], kern: v[5], marks: v[6], fea: v[7], vert: v[8], rules: v[9], inst: v[10] })
+    }
+
+    /// combinations that cannot exist or that repeat another one
+    fn possible(&self) -> bool {
+        let is_static = self.layout == 0;
+        // a static design has no rules and no instances; with one master "different groups in the
+        // last master" is kern 2 and "advance constant over the masters" is adv 1
+        !(is_static && (self.rules != 0 || self.inst != 0 || self.kern == 3 || self.adv == 2))
+    }
+
+    /// number of toggles that are not at their smallest value
+    fn weight(&self) -> u32 {
+        [self.layout, self.notdef, self.inv, self.adv, self.kern, self.marks, self.fea, self.vert, self.rules, self.inst].iter().filter(|v| **v != 0).count() as u32
+            + self.comps.count_ones()
+    }
+
+    /// The features that are "on", as a set of atoms ordered by implication: a violation is keyed
+    /// by the atoms of the smallest failing case, not by the case.
+    fn atoms(&self) -> BTreeSet<&'static str> {
+        let mut a = BTreeSet::new();
+        match self.layout {
+            0 => {}
+            1 => {
+                a.insert("var");
+            }
+            2 => {
+                a.extend(["var", "mid-master"]);
+            }
+            3 => {
+                a.extend(["var", "sparse-layer"]);
+            }
+            4 => {
+                a.extend(["var", "two-axes"]);
+            }
+            5 => {
+                a.extend(["var", "mid-default"]);
+            }
+            _ => {
+                a.extend(["var", "two-axes", "corner-master", "sparse-layer"]);
+            }
+        }
+        if self.notdef == 1 {
+            a.insert("notdef-drawn");
+        }
+        if self.inv == 1 {
+            a.insert("rich-inventory");
+        }
+        match self.adv {
+            0 => {}
+            1 => {
+                a.insert("equal-advances");
+            }
+            _ => {
+                a.extend(["equal-advances", "constant-advances"]);
+            }
+        }
+        for (bit, name) in [(COMP_NESTED, "comp-nested"), (COMP_XFORM, "comp-xform"), (COMP_MIXED, "comp-mixed"), (COMP_NOEXPORT, "comp-noexport")] {
+            if self.comps & bit != 0 {
+                a.insert(name);
+            }
+        }
+        match self.kern {
+            0 => {}
+            1 => {
+                a.insert("kern-pairs");
+            }
+            2 => {
+                a.insert("kern-groups");
+            }
+            _ => {
+                a.extend(["kern-groups", "kern-groups-differ"]);
+            }
+        }
+        match self.marks {
+            0 => {}
+            1 => {
+                a.insert("mark");
+            }
+            2 => {
+                a.extend(["mark", "mkmk"]);
+            }
+            _ => {
+                a.extend(["mark", "mkmk", "lig-anchors"]);
+            }
+        }
+        match self.fea {
+            0 => {}
+            1 => {
+                a.insert("fea-gsub");
+            }
+            2 => {
+                a.insert("fea-chain");
+            }
+            _ => {
+                a.extend(["fea-gsub", "fea-chain", "fea-tables"]);
+            }
+        }
+        if self.vert == 1 {
+            a.insert("vertical");
+        }
+        match self.rules {
+            0 => {}
+            1 => {
+                a.insert("rules");
+            }
+            _ => {
+                a.extend(["rules", "rules-overlap"]);
+            }
+        }
+        if self.inst == 1 {
+            a.insert("instances");
+        }
+        a
+    }
+}
+
+/// The domain of every toggle in one tier. The enumerated space is the full product, in the
+/// order of the fields (layout outermost, inst innermost), minus `!possible()`.
+struct Domains {
+    layout: &'static [u8],
+    notdef: &'static [u8],
+    /// (inv, adv) pairs
+    inv_adv: &'static [(u8, u8)],
+    comps: &'static [u8],
+    kern: &'static [u8],
+    marks: &'static [u8],
+    fea: &'static [u8],
+    vert: &'static [u8],
+    rules: &'static [u8],
+    inst: &'static [u8],
+}
+
+const QUICK: Domains = Domains {
+    layout: &[0, 1, 3, 4],
+    notdef: &[0, 1],
+    inv_adv: &[(0, 0), (1, 1)],
+    comps: &[0, COMP_NESTED, COMP_XFORM, COMP_MIXED | COMP_NOEXPORT],
+    kern: &[0, 2],
+    marks: &[0, 1, 3],
+    fea: &[0, 1, 2],
+    vert: &[0, 1],
+    rules: &[0, 2],
+    inst: &[0, 1],
+};
+
+const THOROUGH: Domains = Domains {
+    layout: &[0, 1, 2, 3, 4, 5, 6],
+    notdef: &[0, 1],
+    inv_adv: &[(0, 0), (1, 1), (1, 2)],
+    comps: &[0, COMP_NESTED, COMP_XFORM, COMP_MIXED | COMP_NOEXPORT, 15],
+    kern: &[0, 1, 2, 3],
+    marks: &[0, 1, 3],
+    fea: &[0, 1, 2, 3],
+    vert: &[0, 1],
+    rules: &[0, 2],
+    inst: &[0, 1],
+};
+
+impl Domains {
+    fn enumerate(&self) -> Vec<Toggles> {
+        let mut v = vec![];
+        for &layout in self.layout {
+            for &notdef in self.notdef {
+                for &(inv, adv) in self.inv_adv {
+                    for &comps in self.comps {
+                        for &kern in self.kern {
+                            for &marks in self.marks {
+                                for &fea in self.fea {
+                                    for &vert in self.vert {
+                                        for &rules in self.rules {
+                                            for &inst in self.inst {
+                                                let t = Toggles { layout, notdef, inv, adv, comps, kern, marks, fea, vert, rules, inst };
+                                                if t.possible() {
+                                                    v.push(t);
+                                                }
+                                            }
+                                        }
+                                    }
+                                }
+                            }
+                        }
+                    }
+                }
+            }
+        }
+        v
+    }
+
+    fn describe(&self) -> Value {
+        json!({
+            "layout": self.layout, "notdef": self.notdef, "inv_adv": self.inv_adv, "comps": self.comps, "kern": self.kern,
+            "marks": self.marks, "fea": self.fea, "vert": self.vert, "rules": self.rules, "inst": self.inst,
+            "removed": "static layout (0) with rules, instances, kern 3 or adv 2",
+        })
+    }
+}
+
+/// What one glyph of a generated design looks like at "progress" `p` (0 at the first master, grows
+/// towards the others): contours, components, anchors. Advance and height are filled in later.
+struct GSpec {
+    name: &'static str,
+    cps: Vec<u32>,
+    export: bool,
+    mark: bool,
+    /// also drawn in the sparse layer master
+    sparse: bool,
+    draw: Box<dyn Fn(f64) -> Layer>,
+}
+
+fn gs(name: &'static str, cps: &[u32], draw: impl Fn(f64) -> Layer + 'static) -> GSpec {
+    GSpec { name, cps: cps.to_vec(), export: true, mark: false, sparse: false, draw: Box::new(draw) }
+}
+
+fn outline(contours: Vec<Contour>) -> Layer {
+    Layer { contours, ..Default::default() }
+}
+
+fn composite(components: Vec<Component>) -> Layer {
+    Layer { components, ..Default::default() }
+}
+
+fn xf(base: &str, xform: [f64; 6]) -> Component {
+    Component { base: base.into(), xform }
+}
+
+fn anchor(name: &str, x: f64, y: f64) -> Anchor {
+    Anchor { name: name.into(), x, y }
+}
+
+/// axes, full master locations with their progress, sparse layer master location with its progress
+#[allow(clippy::type_complexity)]
+fn layout_spec(layout: u8) -> (Vec<Axis>, Vec<(Vec<f64>, f64)>, Option<(Vec<f64>, f64)>) {
+    let wght = || Axis::new("wght", "Weight", 400.0, 400.0, 700.0);
+    let mapped = || {
+        let mut a = Axis::new("wght", "Weight", 100.0, 100.0, 900.0);
+        a.map = vec![(100.0, 400.0), (500.0, 520.0), (900.0, 700.0)];
+        a
+    };
+    let hidden = || {
+        let mut a = Axis::new("XTRA", "Extra", 0.0, 0.0, 100.0);
+        a.hidden = true;
+        a
+    };
+    match layout {
+        0 => (vec![], vec![(vec![], 0.0)], None),
+        1 => (vec![wght()], vec![(vec![400.0], 0.0), (vec![700.0], 20.0)], None),
+        2 => (vec![wght()], vec![(vec![400.0], 0.0), (vec![550.0], 7.0), (vec![700.0], 20.0)], None),
+        3 => (vec![wght()], vec![(vec![400.0], 0.0), (vec![700.0], 20.0)], Some((vec![550.0], 7.0))),
+        4 => (vec![mapped(), hidden()], vec![(vec![400.0, 0.0], 0.0), (vec![700.0, 0.0], 20.0), (vec![400.0, 100.0], 11.0)], None),
+        5 => (vec![Axis::new("wght", "Weight", 400.0, 550.0, 700.0)], vec![(vec![400.0], 0.0), (vec![550.0], 10.0), (vec![700.0], 26.0)], None),
+        _ => (
+            vec![mapped(), hidden()],
+            vec![(vec![400.0, 0.0], 0.0), (vec![700.0, 0.0], 20.0), (vec![400.0, 100.0], 11.0), (vec![700.0, 100.0], 35.0)],
+            Some((vec![550.0, 0.0], 7.0)),
+        ),
+    }
+}
+
+fn feature_text(t: &Toggles) -> Option<String> {
+    if t.fea == 0 {
+        return None;
+    }
+    let mut s = String::from("languagesystem DFLT dflt;\n");
+    if t.fea != 2 {
+        s.push_str("languagesystem latn dflt;\n");
+    }
+    if t.fea == 3 {
+        // explicit glyph classes: everything that can be present
+        let mut bases = vec!["A", "B", "A.alt"];
+        let mut ligs = vec!["A_B"];
+        let mut marks = vec![];
+        if t.marks >= 1 {
+            marks.extend(["acutecomb", "dotbelowcomb"]);
+        }
+        if t.marks == 3 {
+            ligs.push("f_i");
+        }
+        if t.rules == 2 {
+            bases.push("B.alt");
+        }
+        s.push_str(&format!("table GDEF {{\n  GlyphClassDef [{}], [{}], [{}], ;\n}} GDEF;\n", bases.join(" "), ligs.join(" "), marks.join(" ")));
+        s.push_str("table name {\n  nameid 9 \"C05 designer\";\n} name;\n");
+    }
+    if t.fea == 2 || t.fea == 3 {
+        s.push_str("lookup alt {\n  sub A by A.alt;\n} alt;\n");
+        s.push_str("feature calt {\n  sub B A' lookup alt;\n} calt;\n");
+        s.push_str("feature cpsp {\n  pos A <5 0 10 0>;\n} cpsp;\n");
+    }
+    if t.fea == 1 || t.fea == 3 {
+        s.push_str("feature salt {\n  sub A by A.alt;\n} salt;\n");
+        s.push_str("feature liga {\n  sub A B by A_B;\n} liga;\n");
+        s.push_str("feature ss01 {\n  featureNames {\n    name \"Alternate A\";\n  };\n  sub A by A.alt;\n} ss01;\n");
+    }
+    Some(s)
+}
+
+fn build_design(t: &Toggles) -> Design {
+    let (axes, full, sparse) = layout_spec(t.layout);
+    let two_axes = axes.len() == 2;
+    let n_full = full.len();
+    let mut d = Design::skeleton("C05Gen", axes, full.iter().map(|(l, _)| l.clone()).collect());
+    let mut progress: Vec<f64> = full.iter().map(|(_, p)| *p).collect();
+    let sparse_master = sparse.map(|(loc, p)| {
+        progress.push(p);
+        let host = d.default_master;
+        d.add_layer_master(host, loc)
+    });
+
+    // ---- glyph inventory, in glyph order
+    let mut g: Vec<GSpec> = vec![];
+    if t.notdef == 1 {
+        g.push(gs(".notdef", &[], |p| outline(vec![shapes::rect(50.0, 0.0, 450.0 + p, 700.0), shapes::rect(100.0, 50.0, 400.0 + p, 650.0)])));
+    }
+    if t.inv == 1 {
+        g.push(gs("space", &[0x20], |_| Layer::default()));
+    }
+    let marks = t.marks;
+    let mut a = gs("A", &[0x41], move |p| {
+        let mut l = outline(vec![shapes::rect(50.0, 0.0, 150.0 + p, 700.0)]);
+        if marks >= 1 {
+            l.anchors.push(anchor("top", 100.0 + p / 2.0, 720.0));
+        }
+        l
+    });
+    a.sparse = true;
+    g.push(a);
+    g.push(gs("B", &[0x42], move |p| {
+        let mut l = outline(vec![shapes::triangle(50.0, 0.0, 300.0 + p, 600.0)]);
+        if marks >= 1 {
+            l.anchors.push(anchor("top", 175.0, 620.0 + p));
+            l.anchors.push(anchor("bottom", 175.0, -20.0));
+        }
+        l
+    }));
+    if t.inv == 1 {
+        g.push(gs("o", &[0x6F], |p| outline(vec![shapes::quad_blob(250.0, 250.0, 200.0 + p)])));
+        g.push(gs("c", &[0x63], |p| outline(vec![shapes::cubic_blob(250.0, 250.0, 200.0 + p)])));
+        g.push(gs("D", &[0x44, 0x394, 0x1F600], |p| outline(vec![shapes::rect(60.0, 0.0, 400.0 + p, 700.0), shapes::quad_blob(230.0, 350.0, 100.0)])));
+        g.push(gs("A.sc", &[], |p| outline(vec![shapes::rect(50.0, 0.0, 130.0 + p, 500.0)])));
+    }
+    if t.fea != 0 || t.rules != 0 {
+        g.push(gs("A.alt", &[], |p| outline(vec![shapes::rect(40.0, 0.0, 180.0 + p, 700.0)])));
+    }
+    if t.rules == 2 {
+        g.push(gs("B.alt", &[], |p| outline(vec![shapes::triangle(40.0, 0.0, 340.0 + p, 600.0)])));
+    }
+    if t.fea != 0 {
+        g.push(gs("A_B", &[], |p| outline(vec![shapes::rect(50.0, 0.0, 150.0 + p, 700.0), shapes::triangle(250.0, 0.0, 300.0 + p, 600.0)])));
+    }
+    if t.marks >= 1 {
+        let mut acute = gs("acutecomb", &[0x301], move |p| {
+            let mut l = outline(vec![shapes::rect(-60.0, 560.0, 20.0 + p, 640.0)]);
+            l.anchors.push(anchor("_top", -20.0, 550.0));
+            if marks >= 2 {
+                l.anchors.push(anchor("top", -20.0, 660.0 + p));
+            }
+            l
+        });
+        acute.mark = true;
+        g.push(acute);
+        let mut dot = gs("dotbelowcomb", &[0x323], |p| {
+            let mut l = outline(vec![shapes::rect(-60.0, -120.0, 20.0 + p, -40.0)]);
+            l.anchors.push(anchor("_bottom", -20.0, -30.0));
+            l
+        });
+        dot.mark = true;
+        g.push(dot);
+    }
+    if t.marks == 3 {
+        g.push(gs("f_i", &[0xFB01], |p| {
+            let mut l = outline(vec![shapes::rect(50.0, 0.0, 150.0, 700.0), shapes::rect(300.0, 0.0, 400.0 + p, 500.0)]);
+            l.anchors.push(anchor("top_1", 100.0, 720.0));
+            l.anchors.push(anchor("top_2", 350.0 + p, 520.0));
+            l
+        }));
+    }
+    if t.comps & COMP_NESTED != 0 {
+        let mut ab = gs("AB", &[0xC4], |p| composite(vec![Component::at("A", 0.0, 0.0), Component::at("B", 200.0 + p, 0.0)]));
+        ab.sparse = true;
+        g.push(ab);
+        g.push(gs("ABA", &[0xC5], |p| composite(vec![Component::at("AB", 0.0, 0.0), Component::at("A", 600.0 + p, 0.0)])));
+        g.push(gs("ABAB", &[0xC6], |p| composite(vec![Component::at("ABA", 0.0, 0.0), Component::at("B", 800.0, p)])));
+    }
+    if t.comps & COMP_XFORM != 0 {
+        g.push(gs("Aflip", &[0xC0], |p| composite(vec![xf("A", [-1.0, 0.0, 0.0, 1.0, 200.0 + p, 0.0])])));
+        g.push(gs("Ahalf", &[0xC1], |p| composite(vec![xf("A", [0.5, 0.0, 0.0, 0.5, 10.0, 10.0 + p]), Component::at("B", 200.0, 0.0)])));
+        g.push(gs("Abig", &[0xC2], |p| composite(vec![xf("A", [2.5, 0.0, 0.0, 2.5, p, 0.0])])));
+        g.push(gs("Arot", &[0xC3], |p| composite(vec![xf("A", [0.0, 1.0, -1.0, 0.0, 300.0 + p, 0.0])])));
+        if t.comps & COMP_NESTED != 0 {
+            // a transformed component that is itself a composite, next to a flipped composite
+            g.push(gs("ABx", &[0xC7], |p| composite(vec![xf("AB", [0.5, 0.0, 0.0, 1.0, 0.0, 0.0]), xf("Aflip", [1.0, 0.0, 0.0, -1.0, 700.0, 700.0 + p])])));
+        }
+    }
+    if t.comps & COMP_MIXED != 0 {
+        g.push(gs("Amix", &[0xC8], |p| Layer {
+            contours: vec![shapes::rect(0.0, 0.0, 100.0, 100.0 + p)],
+            components: vec![Component::at("B", 150.0 + p, 0.0)],
+            ..Default::default()
+        }));
+    }
+    if t.comps & COMP_NOEXPORT != 0 {
+        let mut part = gs("_part", &[], |p| outline(vec![shapes::rect(0.0, 0.0, 80.0 + p, 300.0)]));
+        part.export = false;
+        g.push(part);
+        g.push(gs("P", &[0x50], |p| composite(vec![Component::at("_part", 0.0, 0.0), Component::at("A", 300.0 + p, 0.0)])));
+    }
+
+    // ---- layers
+    for (gi, spec) in g.iter().enumerate() {
+        let mut glyph = Glyph::new(spec.name, &spec.cps);
+        glyph.export = spec.export;
+        for (m, p) in progress.iter().enumerate() {
+            if m >= n_full && !(spec.sparse && Some(m) == sparse_master) {
+                continue;
+            }
+            let mut layer = (spec.draw)(*p);
+            layer.advance = match t.adv {
+                0 if spec.mark => 0.0,
+                0 if spec.name == "space" => 250.0 + p,
+                0 => 500.0 + 10.0 * gi as f64 + p,
+                1 => 600.0 + p,
+                _ => 600.0,
+            };
+            if t.vert == 1 {
+                layer.height = Some(match t.adv {
+                    0 => 1000.0 + 3.0 * gi as f64 + p,
+                    1 => 1000.0 + p,
+                    _ => 1000.0,
+                });
+            }
+            glyph.layers.insert(m, layer);
+        }
+        d.glyphs.push(glyph);
+    }
+    d.glyph_order = Some(g.iter().map(|s| s.name.to_string()).collect());
+    if t.inv == 1 {
+        d.postscript_names.insert("A.sc".into(), "A.smcp".into());
+    }
+
+    // ---- vertical metrics
+    if t.vert == 1 {
+        for (m, master) in d.masters.iter_mut().enumerate() {
+            let p = progress[m];
+            master.info.extra.push(("openTypeVheaVertTypoAscender".into(), Plist::num(500.0 + p)));
+            master.info.extra.push(("openTypeVheaVertTypoDescender".into(), Plist::num(-500.0)));
+            master.info.extra.push(("openTypeVheaVertTypoLineGap".into(), Plist::num(0.0)));
+        }
+    }
+
+    // ---- kerning
+    if t.kern != 0 {
+        for m in 0..n_full {
+            let p = progress[m];
+            let master = &mut d.masters[m];
+            let pair = |a: &str, b: &str| (a.to_string(), b.to_string());
+            if t.kern == 1 {
+                master.kerning.insert(pair("A", "B"), -50.0 - p);
+                master.kerning.insert(pair("B", "A"), 20.0 + p / 2.0);
+                if t.inv == 1 {
+                    master.kerning.insert(pair("o", "c"), -15.0);
+                }
+            } else {
+                let (l, r) = ("public.kern1.L", "public.kern2.R");
+                let differs = t.kern == 3 && m == n_full - 1;
+                let mut left = vec!["A".to_string()];
+                let mut right = vec!["B".to_string()];
+                if t.inv == 1 {
+                    right.push("o".into());
+                }
+                if differs {
+                    left.push("B".into());
+                    right.push("A".into());
+                }
+                master.groups.insert(l.into(), left);
+                master.groups.insert(r.into(), right);
+                master.kerning.insert(pair(l, r), -40.0 - p);
+                master.kerning.insert(pair("A", r), -10.0);
+                master.kerning.insert(pair(l, "A"), 25.0 + p / 2.0);
+                master.kerning.insert(pair("B", "B"), 12.0);
+            }
+        }
+    }
+
+    // ---- rules, instances, features
+    if t.rules >= 1 {
+        d.rules.push(Rule { name: "r1".into(), condition_sets: vec![vec![("Weight".into(), Some(600.0), Some(700.0))]], subs: vec![("A".into(), "A.alt".into())] });
+    }
+    if t.rules == 2 {
+        let mut conditions = vec![("Weight".to_string(), Some(500.0), Some(700.0))];
+        if two_axes {
+            conditions.push(("Extra".to_string(), Some(50.0), Some(100.0)));
+        }
+        d.rules.push(Rule { name: "r2".into(), condition_sets: vec![conditions], subs: vec![("B".into(), "B.alt".into())] });
+    }
+    if t.inst == 1 {
+        let default: Vec<f64> = d.axes.iter().map(|a| a.default).collect();
+        let mut bold = default.clone();
+        bold[0] = d.axes[0].max;
+        d.instances.push(Instance { family: None, style: "Regular".into(), ps_name: None, user_loc: default });
+        d.instances.push(Instance { family: None, style: "Bold".into(), ps_name: Some("C05Gen-Bold".into()), user_loc: bold });
+    }
+    d.features_fea = feature_text(t);
+    d
+}
+
+/// The in-process equivalent of one entry of `OPTION_SETS`.
+fn opts_of(name: &str) -> Option<fcx::Opts> {
+    let mut o = fcx::Opts::default();
+    match name {
+        "default" => {}
+        "flatten" => o.flatten = true,
+        "skip-features" => o.skip_features = true,
+        "decompose" => o.decompose = true,
+        "decompose-transformed" => o.decompose_transformed = true,
+        "no-prefer-simple" => o.no_prefer_simple = true,
+        "keep-direction" => o.keep_direction = true,
+        "no-production-names" => o.no_production_names = true,
+        _ => return None,
+    }
+    Some(o)
+}
+
+/// The option sets of the generated family: (name, options, only for designs with composites).
+fn generated_option_sets(tier: Tier) -> Vec<(String, fcx::Opts, bool)> {
+    let names: &[&str] = match tier {
+        Tier::Quick => &["default", "flatten", "decompose", "no-prefer-simple"],
+        Tier::Thorough => &["default", "flatten", "skip-features", "decompose", "decompose-transformed", "no-prefer-simple", "keep-direction", "no-production-names"],
+    };
+    let mut v: Vec<(String, fcx::Opts, bool)> = names.iter().map(|n| (n.to_string(), opts_of(n).unwrap(), false)).collect();
+    if tier == Tier::Thorough {
+        // every subset of the four component options; the empty set and the singletons are above
+        for bits in 0u32..16 {
+            if bits.count_ones() >= 2 {
+                let o = fcx::Opts { flatten: bits & 1 != 0, decompose: bits & 2 != 0, decompose_transformed: bits & 4 != 0, no_prefer_simple: bits & 8 != 0, ..Default::default() };
+                v.push((o.name(), o, true));
+            }
+        }
+    }
+    v
+}
+
+/// Structural traits of a compiled font, read with read-fonts: the non-vacuity counters.
+fn font_traits(bytes: &[u8], summary: &otref::Summary) -> Vec<&'static str> {
+    use skrifa::raw::{
+        FontRef, TableProvider,
+        tables::{cmap::CmapSubtable, gpos::PositionLookup, gsub::SubstitutionLookup},
+    };
+    let mut t = vec![];
+    let Ok(font) = FontRef::new(bytes) else { return t };
+    if summary.is_variable {
+        t.push("variable");
+    }
+    if summary.composite_glyphs > 0 {
+        t.push("composites");
+    }
+    if summary.max_component_depth >= 2 {
+        t.push("nested_composites");
+    }
+    if summary.max_component_depth >= 3 {
+        t.push("composites_depth_3");
+    }
+    if summary.has_gsub {
+        t.push("GSUB");
+    }
+    if summary.has_gpos {
+        t.push("GPOS");
+    }
+    if summary.has_gsub || summary.has_gpos {
+        t.push("GSUB_or_GPOS");
+    }
+    for (tag, name) in [("GDEF", "GDEF"), ("MVAR", "MVAR"), ("avar", "avar"), ("vmtx", "vmtx"), ("VVAR", "VVAR"), ("STAT", "STAT"), ("gvar", "gvar"), ("HVAR", "HVAR")] {
+        if summary.tables.iter().any(|x| x == tag) {
+            t.push(name);
+        }
+    }
+    if let Ok(gpos) = font.gpos() {
+        if let Ok(list) = gpos.lookup_list() {
+            for lookup in list.lookups().iter().flatten() {
+                let kind = match lookup {
+                    PositionLookup::Single(_) => "GPOS_single",
+                    PositionLookup::Pair(l) => {
+                        use skrifa::raw::tables::gpos::PairPos;
+                        for sub in l.subtables().iter().flatten() {
+                            t.push(match sub {
+                                PairPos::Format1(_) => "GPOS_pair_glyphs",
+                                PairPos::Format2(_) => "GPOS_pair_classes",
+                            });
+                        }
+                        "GPOS_pair"
+                    }
+                    PositionLookup::Cursive(_) => "GPOS_cursive",
+                    PositionLookup::MarkToBase(_) => "GPOS_mark_to_base",
+                    PositionLookup::MarkToLig(_) => "GPOS_mark_to_ligature",
+                    PositionLookup::MarkToMark(_) => "GPOS_mark_to_mark",
+                    PositionLookup::Contextual(_) => "GPOS_contextual",
+                    PositionLookup::ChainContextual(_) => "GPOS_chain_contextual",
+                    PositionLookup::Extension(_) => "GPOS_extension",
+                };
+                t.push(kind);
+            }
+        }
+        if gpos.feature_variations().is_some() {
+            t.push("GPOS_FeatureVariations");
+        }
+    }
+    if let Ok(gsub) = font.gsub() {
+        if let Ok(list) = gsub.lookup_list() {
+            for lookup in list.lookups().iter().flatten() {
+                t.push(match lookup {
+                    SubstitutionLookup::Single(_) => "GSUB_single",
+                    SubstitutionLookup::Multiple(_) => "GSUB_multiple",
+                    SubstitutionLookup::Alternate(_) => "GSUB_alternate",
+                    SubstitutionLookup::Ligature(_) => "GSUB_ligature",
+                    SubstitutionLookup::Contextual(_) => "GSUB_contextual",
+                    SubstitutionLookup::ChainContextual(_) => "GSUB_chain_contextual",
+                    SubstitutionLookup::Extension(_) => "GSUB_extension",
+                    SubstitutionLookup::Reverse(_) => "GSUB_reverse",
+                });
+            }
+        }
+        if let Some(Ok(fv)) = gsub.feature_variations() {
+            t.push("GSUB_FeatureVariations");
+            if fv.feature_variation_record_count() >= 3 {
+                t.push("GSUB_FeatureVariations_3_or_more_records");
+            }
+        }
+    }
+    if let Ok(gdef) = font.gdef() {
+        if gdef.item_var_store().is_some() {
+            t.push("GDEF_variation_store");
+        }
+        if gdef.mark_attach_class_def().is_some() {
+            t.push("GDEF_mark_attach_classes");
+        }
+    }
+    if let Ok(hvar) = font.hvar() {
+        t.push(if hvar.advance_width_mapping().is_some() { "HVAR_with_index_map" } else { "HVAR_direct" });
+    }
+    if let Ok(vvar) = font.vvar() {
+        t.push(if vvar.advance_height_mapping().is_some() { "VVAR_with_index_map" } else { "VVAR_direct" });
+    }
+    if let Ok(gvar) = font.gvar() {
+        if gvar.shared_tuple_count() > 0 {
+            t.push("gvar_with_shared_tuples");
+        }
+    }
+    if let Ok(fvar) = font.fvar() {
+        if fvar.instance_count() > 0 {
+            t.push("fvar_named_instances");
+        }
+        if fvar.axis_count() >= 2 {
+            t.push("fvar_two_axes");
+        }
+        if let Ok(axes) = fvar.axes() {
+            if axes.iter().any(|a| a.flags() & 1 != 0) {
+                t.push("fvar_hidden_axis");
+            }
+        }
+    }
+    if let Ok(cmap) = font.cmap() {
+        for rec in cmap.encoding_records() {
+            match rec.subtable(cmap.offset_data()) {
+                Ok(CmapSubtable::Format12(_)) => t.push("cmap_format_12"),
+                Ok(CmapSubtable::Format4(_)) => t.push("cmap_format_4"),
+                _ => {}
+            }
+        }
+    }
+    if let Ok(hhea) = font.hhea() {
+        if hhea.number_of_h_metrics() < summary.num_glyphs {
+            t.push("hmtx_fewer_long_metrics_than_glyphs");
+        }
+    }
+    if let Ok(vhea) = font.vhea() {
+        if vhea.number_of_long_ver_metrics() < summary.num_glyphs {
+            t.push("vmtx_fewer_long_metrics_than_glyphs");
+        }
+    }
+    if let Ok(post) = font.post() {
+        if post.version() == skrifa::raw::types::Version16Dot16::VERSION_2_0 {
+            t.push("post_version_2");
+        }
+    }
+    t.sort();
+    t.dedup();
+    t
+}
+
+/// errors grouped by their text with names, numbers and paths taken out
+fn failure_class(f: &fcx::Failure) -> String {
+    let (kind, msg) = match f {
+        fcx::Failure::Error(m) => ("error", m),
+        fcx::Failure::Panic(m) => ("panic", m),
+    };
+    let mut out = String::new();
+    let mut in_quote = false;
+    let mut last_hash = false;
+    for ch in msg.chars() {
+        if ch == '"' || ch == '\'' {
+            in_quote = !in_quote;
+            out.push(ch);
+            continue;
+        }
+        if in_quote {
+            continue;
+        }
+        if ch.is_ascii_digit() {
+            if !last_hash {
+                out.push('#');
+            }
+            last_hash = true;
+            continue;
+        }
+        last_hash = false;
+        out.push(if ch == '\n' { ' ' } else { ch });
+    }
+    let out: String = out.split_whitespace().filter(|w| !w.starts_with("/dev/shm") && !w.starts_with("/tmp")).collect::<Vec<_>>().join(" ");
+    format!("{kind}: {}", out.chars().take(160).collect::<String>())
+}
+
+struct Hit {
+    case: usize,
+    opt: usize,
+    code: String,
+    detail: String,
+}
+
+/// What the generated family measured, mergeable over work chunks.
+#[derive(Default)]
+struct GenAgg {
+    designs: u64,
+    compiles: u64,
+    fonts_checked: u64,
+    bytes_checked: u64,
+    refs_checked: u64,
+    fields_traversed: u64,
+    cpu_ns: u64,
+    compile_cpu_ns: u64,
+    check_cpu_ns: u64,
+    refs_by_kind: BTreeMap<String, u64>,
+    tables_seen: BTreeSet<String>,
+    untraversed: BTreeSet<String>,
+    /// failure class -> (count, first case id + option set)
+    failures: BTreeMap<String, (u64, String)>,
+    /// option set -> (checked, failed)
+    per_option: BTreeMap<String, (u64, u64)>,
+    traits: BTreeMap<&'static str, u64>,
+    /// "toggle=value" -> fonts checked
+    per_toggle: BTreeMap<String, u64>,
+    distinct: BTreeSet<u64>,
+    distinct_nontrivial: BTreeSet<u64>,
+    hits: Vec<Hit>,
+    /// (font bytes, case, option set, summary)
+    smallest: Option<(usize, usize, usize, Value)>,
+    largest: Option<(usize, usize, usize, Value)>,
+    machinery: Vec<String>,
+}
+
+impl GenAgg {
+    fn merge(&mut self, o: GenAgg) {
+        self.designs += o.designs;
+        self.compiles += o.compiles;
+        self.fonts_checked += o.fonts_checked;
+        self.bytes_checked += o.bytes_checked;
+        self.refs_checked += o.refs_checked;
+        self.fields_traversed += o.fields_traversed;
+        self.cpu_ns += o.cpu_ns;
+        self.compile_cpu_ns += o.compile_cpu_ns;
+        self.check_cpu_ns += o.check_cpu_ns;
+        for (k, n) in o.refs_by_kind {
+            *self.refs_by_kind.entry(k).or_insert(0) += n;
+        }
+        self.tables_seen.extend(o.tables_seen);
+        self.untraversed.extend(o.untraversed);
+        for (k, (n, first)) in o.failures {
+            let e = self.failures.entry(k).or_insert((0, first));
+            e.0 += n;
+        }
+        for (k, (a, b)) in o.per_option {
+            let e = self.per_option.entry(k).or_insert((0, 0));
+            e.0 += a;
+            e.1 += b;
+        }
+        for (k, n) in o.traits {
+            *self.traits.entry(k).or_insert(0) += n;
+        }
+        for (k, n) in o.per_toggle {
+            *self.per_toggle.entry(k).or_insert(0) += n;
+        }
+        self.distinct.extend(o.distinct);
+        self.distinct_nontrivial.extend(o.distinct_nontrivial);
+        self.hits.extend(o.hits);
+        // chunks are merged in canonical order: ties keep the earlier case
+        if let Some(s) = o.smallest {
+            if self.smallest.as_ref().is_none_or(|x| s.0 < x.0) {
+                self.smallest = Some(s);
+            }
+        }
+        if let Some(l) = o.largest {
+            if self.largest.as_ref().is_none_or(|x| l.0 > x.0) {
+                self.largest = Some(l);
+            }
+        }
+        self.machinery.extend(o.machinery);
+    }
+}
+
+fn thread_cpu_ns() -> u64 {
+    let mut ts = libc::timespec { tv_sec: 0, tv_nsec: 0 };
+    // SAFETY: plain syscall filling a local struct
+    unsafe { libc::clock_gettime(libc::CLOCK_THREAD_CPUTIME_ID, &mut ts) };
+    ts.tv_sec as u64 * 1_000_000_000 + ts.tv_nsec as u64
+}
+
+/// One compiled-and-checked generated font.
+struct GenChecked {
+    hash: u64,
+    bytes: usize,
+    summary: otref::Summary,
+    issues: Vec<otref::Issue>,
+    traits: Vec<&'static str>,
+    compile_ns: u64,
+    check_ns: u64,
+}
+
+fn compile_generated(source: &Path, opts: &fcx::Opts) -> Result<GenChecked, fcx::Failure> {
+    let t0 = thread_cpu_ns();
+    let bytes = fcx::compile(source, opts, None)?;
+    let t1 = thread_cpu_ns();
+    match std::panic::catch_unwind(|| otref::check_font(&bytes)) {
+        Ok((summary, issues)) => {
+            let traits = font_traits(&bytes, &summary);
+            let t2 = thread_cpu_ns();
+            Ok(GenChecked { hash: vcore::hash64(&bytes), bytes: bytes.len(), summary, issues, traits, compile_ns: t1 - t0, check_ns: t2 - t1 })
+        }
+        Err(_) => vcore::machinery_error(&format!("otref::check_font panicked on the font compiled from {} [{}]", source.display(), opts.name())),
+    }
+}
+
+fn run_generated_chunk(cases: &[Toggles], range: std::ops::Range<usize>, option_sets: &[(String, fcx::Opts, bool)]) -> GenAgg {
+    let mut agg = GenAgg::default();
+    let cpu0 = thread_cpu_ns();
+    for ci in range {
+        let t = &cases[ci];
+        let design = build_design(t);
+        let scratch = Scratch::new("c05g");
+        let source = match design.write_source(scratch.path()) {
+            Ok(p) => p,
+            Err(e) => {
+                agg.machinery.push(format!("cannot write the source of {}: {e}", t.id()));
+                continue;
+            }
+        };
+        agg.designs += 1;
+        for (oi, (oname, opts, composites_only)) in option_sets.iter().enumerate() {
+            if *composites_only && t.comps == 0 {
+                continue;
+            }
+            agg.compiles += 1;
+            let tally = agg.per_option.entry(oname.clone()).or_insert((0, 0));
+            match compile_generated(&source, opts) {
+                Err(f) => {
+                    tally.1 += 1;
+                    let e = agg.failures.entry(failure_class(&f)).or_insert((0, format!("{} [{oname}]", t.id())));
+                    e.0 += 1;
+                }
+                Ok(c) => {
+                    tally.0 += 1;
+                    agg.fonts_checked += 1;
+                    agg.compile_cpu_ns += c.compile_ns;
+                    agg.check_cpu_ns += c.check_ns;
+                    agg.bytes_checked += c.bytes as u64;
+                    agg.refs_checked += c.summary.refs_checked;
+                    agg.fields_traversed += c.summary.fields_traversed;
+                    for (k, n) in &c.summary.refs_by_kind {
+                        *agg.refs_by_kind.entry(k.clone()).or_insert(0) += n;
+                    }
+                    agg.tables_seen.extend(c.summary.tables.iter().cloned());
+                    agg.untraversed.extend(c.summary.untraversed_tables.iter().cloned());
+                    agg.distinct.insert(c.hash);
+                    if c.summary.is_variable || c.summary.has_gsub || c.summary.has_gpos || c.summary.composite_glyphs > 0 {
+                        agg.distinct_nontrivial.insert(c.hash);
+                    }
+                    for tr in &c.traits {
+                        *agg.traits.entry(tr).or_insert(0) += 1;
+                    }
+                    for (k, v) in [
+                        ("layout", t.layout),
+                        ("notdef", t.notdef),
+                        ("inv", t.inv),
+                        ("adv", t.adv),
+                        ("comps", t.comps),
+                        ("kern", t.kern),
+                        ("marks", t.marks),
+                        ("fea", t.fea),
+                        ("vert", t.vert),
+                        ("rules", t.rules),
+                        ("inst", t.inst),
+                    ] {
+                        *agg.per_toggle.entry(format!("{k}={v}")).or_insert(0) += 1;
+                    }
+                    if agg.smallest.as_ref().is_none_or(|x| c.bytes < x.0) {
+                        agg.smallest = Some((c.bytes, ci, oi, json!(c.summary)));
+                    }
+                    if agg.largest.as_ref().is_none_or(|x| c.bytes > x.0) {
+                        agg.largest = Some((c.bytes, ci, oi, json!(c.summary)));
+                    }
+                    for issue in c.issues {
+                        agg.hits.push(Hit { case: ci, opt: oi, code: issue.code, detail: issue.detail });
+                    }
+                }
+            }
+        }
+    }
+    agg.cpu_ns = thread_cpu_ns().saturating_sub(cpu0);
+    agg
+}
+
+fn generated_replay(t: &Toggles, oname: &str, opts: &fcx::Opts) -> Value {
+    json!({"case": t.id(), "toggles": t, "features_on": t.atoms(), "option_set": oname, "opts": opts, "design": build_design(t)})
+}
+
+/// Report the issues found on generated fonts. Per issue code the failing (case, option set)
+/// pairs are sorted by size; a pair whose features include those of an earlier, smaller failing
+/// pair belongs to that pair's class. One key per class: `<code>:gen:<features of the smallest
+/// failing case>`; the replay file of the key is that smallest case.
+fn report_generated_hits(rep: &mut Reporter, cases: &[Toggles], option_sets: &[(String, fcx::Opts, bool)], hits: &[Hit]) -> BTreeMap<String, u64> {
+    let atoms_of = |h: &Hit| -> BTreeSet<String> {
+        let mut a: BTreeSet<String> = cases[h.case].atoms().into_iter().map(String::from).collect();
+        let o = &option_sets[h.opt].0;
+        if o != "default" {
+            a.extend(o.split('+').map(|x| format!("opt-{x}")));
+        }
+        a
+    };
+    let mut by_code: BTreeMap<&str, Vec<&Hit>> = BTreeMap::new();
+    for h in hits {
+        by_code.entry(&h.code).or_default().push(h);
+    }
+    let mut per_key = BTreeMap::new();
+    for (code, mut list) in by_code {
+        list.sort_by_key(|h| (atoms_of(h).len(), cases[h.case].weight(), h.case, h.opt));
+        let mut classes: Vec<(BTreeSet<String>, String)> = vec![];
+        for h in list {
+            let atoms = atoms_of(h);
+            let key = match classes.iter().find(|(a, _)| a.is_subset(&atoms)) {
+                Some((_, key)) => key.clone(),
+                None => {
+                    let key = format!("{code}:gen:{}", if atoms.is_empty() { "base".to_string() } else { atoms.iter().cloned().collect::<Vec<_>>().join("+") });
+                    classes.push((atoms, key.clone()));
+                    key
+                }
+            };
+            *per_key.entry(key.clone()).or_insert(0) += 1;
+            let (oname, opts, _) = &option_sets[h.opt];
+            let t = &cases[h.case];
+            // the reporter keeps the first replay of a key: build the (large) replay only then
+            let first = !rep.is_known(&key) && per_key[&key] == 1;
+            let replay = if first { generated_replay(t, oname, opts) } else { json!({"case": t.id(), "option_set": oname}) };
+            rep.violation(&key, &format!("generated {} [{oname}] {}", t.id(), h.detail), replay);
+        }
+    }
+    per_key
+}
+
+struct GenRun {
+    agg: GenAgg,
+    cases: Vec<Toggles>,
+    option_sets: Vec<(String, fcx::Opts, bool)>,
+    capped: bool,
+    wall_s: f64,
+    /// size of the enumerated space (`cases` is shorter only under C05_GEN_STRIDE)
+    total_cases: usize,
+    stride: usize,
+}
+
+fn run_generated(tier: Tier) -> GenRun {
+    let mut cases = tier.pick(&QUICK, &THOROUGH).enumerate();
+    let total_cases = cases.len();
+    // diagnostics only (cost calibration): every k-th case of the enumeration
+    let stride: usize = std::env::var("C05_GEN_STRIDE").ok().and_then(|s| s.parse().ok()).unwrap_or(1).max(1);
+    if stride > 1 {
+        cases = cases.into_iter().step_by(stride).collect();
+    }
+    let option_sets = generated_option_sets(tier);
+    // wall-clock cap (the space is sized to finish well inside it on a quiet machine)
+    let cap_s: f64 = std::env::var("C05_GEN_CAP_S").ok().and_then(|s| s.parse().ok()).unwrap_or(tier.pick(150.0, 1200.0));
+    const CHUNK: usize = 16;
+    let n_chunks = cases.len().div_ceil(CHUNK);
+    let start = std::time::Instant::now();
+    let stop = AtomicBool::new(false);
+    let hook = std::panic::take_hook();
+    // compiler panics are caught by fcx and counted; their messages would only be noise
+    fcx::silence_panics();
+    // The chunks are worked on in a scattered order (multiples of a step coprime to their number)
+    // so that a run cut short by the cap has still seen every layout; results are merged in
+    // canonical order.
+    let gcd = |mut a: usize, mut b: usize| {
+        while b != 0 {
+            (a, b) = (b, a % b);
+        }
+        a
+    };
+    let mut step = (n_chunks as f64 * 0.618) as usize | 1;
+    while n_chunks > 1 && gcd(step, n_chunks) != 1 {
+        step += 2;
+    }
+    let chunk_of = |j: usize| if n_chunks > 1 { (j * step) % n_chunks } else { j };
+    let results = vcore::par_for(n_chunks, vcore::ncores(), |j| {
+        if stop.load(Ordering::Relaxed) || start.elapsed().as_secs_f64() > cap_s {
+            stop.store(true, Ordering::Relaxed);
+            return None;
+        }
+        let k = chunk_of(j);
+        Some(run_generated_chunk(&cases, k * CHUNK..((k + 1) * CHUNK).min(cases.len()), &option_sets))
+    });
+    std::panic::set_hook(hook);
+    let mut chunks: Vec<(usize, Option<GenAgg>)> = results.into_iter().enumerate().map(|(j, r)| (chunk_of(j), r)).collect();
+    chunks.sort_by_key(|(k, _)| *k);
+    let mut agg = GenAgg::default();
+    let mut capped = false;
+    for (_, c) in chunks {
+        match c {
+            Some(c) => agg.merge(c),
+            None => capped = true,
+        }
+    }
+    GenRun { agg, cases, option_sets, capped, wall_s: start.elapsed().as_secs_f64(), total_cases, stride }
+}
+
+// ==========================================================================================
+// FIXTURES (product binary)
+// ==========================================================================================
 
 enum Outcome {
     /// the compiler said no (counted, judged by other properties)
     CompileFailed(String),
     /// exit 0 but no font file
     NoOutput(String),
-    Checked { hash: u64, summary: otref::Summary, issues: Vec<otref::Issue>, bytes: usize },
+    Checked { hash: u64, summary: otref::Summary, issues: Vec<otref::Issue>, bytes: usize, traits: Vec<&'static str> },
 }
 
 fn compile_and_check(case: &Case, options: &[&str]) -> Outcome {
@@ -94,10 +1201,41 @@ fn compile_and_check(case: &Case, options: &[&str]) -> Outcome {
     }
     match std::fs::read(&out) {
         Ok(bytes) => match std::panic::catch_unwind(|| otref::check_font(&bytes)) {
-            Ok((summary, issues)) => Outcome::Checked { hash: vcore::hash64(&bytes), summary, issues, bytes: bytes.len() },
+            Ok((summary, issues)) => {
+                let traits = font_traits(&bytes, &summary);
+                Outcome::Checked { hash: vcore::hash64(&bytes), summary, issues, bytes: bytes.len(), traits }
+            }
             Err(_) => vcore::machinery_error(&format!("otref::check_font panicked on the font compiled from {} {options:?}", case.name)),
         },
         Err(e) => Outcome::NoOutput(format!("exit 0 but {}: {e}", out.display())),
+    }
+}
+
+fn replay_generated(rep: &mut Reporter, path: &Path, r: &Value) {
+    let design: Design = serde_json::from_value(r["design"].clone()).unwrap_or_else(|e| vcore::machinery_error(&format!("replay {path:?}: design: {e}")));
+    let opts: fcx::Opts = match r.get("opts") {
+        Some(o) => serde_json::from_value(o.clone()).unwrap_or_else(|e| vcore::machinery_error(&format!("replay {path:?}: opts: {e}"))),
+        None => r["option_set"].as_str().and_then(opts_of).unwrap_or_else(|| vcore::machinery_error(&format!("replay {path:?}: needs opts or a known option_set"))),
+    };
+    let name = r["case"].as_str().unwrap_or("generated");
+    let features: Vec<String> = r["features_on"].as_array().map(|a| a.iter().filter_map(|x| x.as_str().map(String::from)).collect()).unwrap_or_default();
+    let scratch = Scratch::new("c05-replay");
+    let source = design.write_source(scratch.path()).unwrap_or_else(|e| vcore::machinery_error(&format!("replay {path:?}: cannot write the source: {e}")));
+    eprintln!("[C05] replay: generated design {name} ({} glyphs, {} masters) [{}]", design.glyphs.len(), design.masters.len(), opts.name());
+    match compile_generated(&source, &opts) {
+        Err(f) => eprintln!("[C05] replay: compile failed ({f:?}); nothing to judge"),
+        Ok(c) => {
+            eprintln!("[C05] replay: {} bytes, tables {:?}, {} issue(s)", c.bytes, c.summary.tables, c.issues.len());
+            let mut atoms: Vec<String> = features;
+            if opts.name() != "default" {
+                atoms.extend(opts.name().split('+').map(|x| format!("opt-{x}")));
+            }
+            atoms.sort();
+            let class = if atoms.is_empty() { "base".to_string() } else { atoms.join("+") };
+            for issue in c.issues {
+                rep.violation(&format!("{}:gen:{class}", issue.code), &format!("generated {name} [{}] {}", opts.name(), issue.detail), r.clone());
+            }
+        }
     }
 }
 
@@ -105,12 +1243,18 @@ fn replay(rep: &mut Reporter, path: &Path) {
     let text = std::fs::read_to_string(path).unwrap_or_else(|e| vcore::machinery_error(&format!("replay {path:?}: {e}")));
     let v: Value = serde_json::from_str(&text).unwrap_or_else(|e| vcore::machinery_error(&format!("replay {path:?}: {e}")));
     let r = v.get("replay").unwrap_or(&v);
+    if r.get("design").is_some() {
+        return replay_generated(rep, path, r);
+    }
     let (Some(source), Some(name), Some(option_set)) = (r["source"].as_str(), r["case"].as_str(), r["option_set"].as_str()) else {
-        vcore::machinery_error(&format!("replay {path:?}: needs source, case, option_set"))
+        vcore::machinery_error(&format!("replay {path:?}: needs source, case, option_set (fixture) or design (generated)"))
     };
     let Some((_, options)) = OPTION_SETS.iter().find(|(n, _)| *n == option_set) else {
         vcore::machinery_error(&format!("replay {path:?}: unknown option set {option_set}"))
     };
+    if !vcore::fontc_bin().exists() {
+        vcore::machinery_error(&format!("product binary {:?} is missing (run ./check setup)", vcore::fontc_bin()));
+    }
     let case = Case { name: name.to_string(), source: PathBuf::from(source) };
     match compile_and_check(&case, options) {
         Outcome::CompileFailed(s) => eprintln!("[C05] replay: compile failed ({s}); nothing to judge"),
@@ -126,19 +1270,67 @@ fn replay(rep: &mut Reporter, path: &Path) {
 fn main() {
     let args = vcore::parse_args();
     let mut rep = Reporter::new("C05", "exploration", &args);
-    if !vcore::fontc_bin().exists() {
-        vcore::machinery_error(&format!("product binary {:?} is missing (run ./check setup)", vcore::fontc_bin()));
-    }
     if let Some(path) = &args.replay {
         replay(&mut rep, path);
         rep.finish();
     }
+    // diagnostics: `c05 --case <generated case id> [--opts <option set, e.g. flatten+decompose>] [--keep <dir>]`
+    // builds, compiles and checks that single generated design (exit 1 if it has an issue)
+    if let Some(i) = args.rest.iter().position(|a| a == "--case") {
+        let arg = |name: &str| args.rest.iter().position(|a| a == name).and_then(|i| args.rest.get(i + 1));
+        let Some(t) = args.rest.get(i + 1).and_then(|id| Toggles::parse(id)) else {
+            vcore::machinery_error("--case needs a generated case id such as L3-n1-i1-a0-c3-k2-m1-f2-v0-r2-s1")
+        };
+        let oname = arg("--opts").cloned().unwrap_or("default".into());
+        let mut opts = fcx::Opts::default();
+        for part in oname.split('+') {
+            match opts_of(part) {
+                Some(o) => {
+                    opts = fcx::Opts {
+                        flatten: opts.flatten | o.flatten,
+                        decompose: opts.decompose | o.decompose,
+                        decompose_transformed: opts.decompose_transformed | o.decompose_transformed,
+                        no_prefer_simple: opts.no_prefer_simple | o.no_prefer_simple,
+                        keep_direction: opts.keep_direction | o.keep_direction,
+                        no_production_names: opts.no_production_names | o.no_production_names,
+                        skip_features: opts.skip_features | o.skip_features,
+                        propagate_anchors: None,
+                    }
+                }
+                None => vcore::machinery_error(&format!("--opts: unknown option set {part}")),
+            }
+        }
+        let scratch = Scratch::new("c05-case");
+        let dir = arg("--keep").map(PathBuf::from).unwrap_or(scratch.path().to_path_buf());
+        let source = build_design(&t).write_source(&dir).unwrap_or_else(|e| vcore::machinery_error(&format!("cannot write the source: {e}")));
+        eprintln!("[C05] case {} (possible: {}) features {:?} source {}", t.id(), t.possible(), t.atoms(), source.display());
+        match compile_generated(&source, &opts) {
+            Err(f) => eprintln!("[C05] compile failed: {f:?}"),
+            Ok(c) => {
+                if let Some(out) = arg("--keep") {
+                    let _ = std::fs::write(Path::new(out).join("font.ttf"), fcx::compile(&source, &opts, None).unwrap_or_default());
+                }
+                eprintln!("[C05] {} bytes; {}", c.bytes, json!(c.summary));
+                eprintln!("[C05] traits {:?}", c.traits);
+                for issue in c.issues {
+                    rep.violation(&format!("{}:gen:case", issue.code), &format!("generated {} [{}] {}", t.id(), opts.name(), issue.detail), generated_replay(&t, &opts.name(), &opts));
+                }
+            }
+        }
+        rep.finish();
+    }
+    if !vcore::fontc_bin().exists() {
+        vcore::machinery_error(&format!("product binary {:?} is missing (run ./check setup)", vcore::fontc_bin()));
+    }
 
-    let generated_dir = Scratch::new("c05gen");
-    let fixtures = fixture_cases();
-    let generated = generated_cases(args.tier, &generated_dir);
-    let n_fixtures = fixtures.len();
-    let cases: Vec<Case> = fixtures.into_iter().chain(generated).collect();
+    // ---------------------------------------------------------------- generated family
+    let skip_generated = std::env::var("C05_SKIP_GENERATED").is_ok();
+    let skip_fixtures = std::env::var("C05_SKIP_FIXTURES").is_ok();
+    let gen_run = if skip_generated { None } else { Some(run_generated(args.tier)) };
+
+    // ---------------------------------------------------------------- fixtures
+    let cases: Vec<Case> = if skip_fixtures { vec![] } else { fixture_cases() };
+    let n_fixtures = cases.len();
     let n_option_sets = args.tier.pick(QUICK_OPTION_SETS, OPTION_SETS.len());
     let jobs: Vec<(usize, usize)> = (0..cases.len()).flat_map(|c| (0..n_option_sets).map(move |o| (c, o))).collect();
 
@@ -163,6 +1355,7 @@ fn main() {
     let mut per_option_set: BTreeMap<&str, (u64, u64)> = BTreeMap::new();
     let mut samples: Vec<Value> = vec![];
     let mut largest: Option<(usize, Value)> = None;
+    let mut fixture_traits: BTreeMap<&'static str, u64> = BTreeMap::new();
     for (j, outcome) in outcomes.iter().enumerate() {
         let (c, o) = jobs[j];
         let (case, option_set) = (&cases[c], OPTION_SETS[o].0);
@@ -177,7 +1370,10 @@ fn main() {
             Outcome::NoOutput(what) => {
                 rep.violation(&format!("no-output:{}", case.name), &format!("[{option_set}] {what}"), replay);
             }
-            Outcome::Checked { hash, summary, issues, bytes } => {
+            Outcome::Checked { hash, summary, issues, bytes, traits } => {
+                for tr in traits {
+                    *fixture_traits.entry(tr).or_insert(0) += 1;
+                }
                 tally.0 += 1;
                 fonts_checked += 1;
                 bytes_checked += *bytes as u64;
@@ -211,6 +1407,98 @@ fn main() {
         }
     }
     samples.extend(largest.map(|(_, s)| s));
+    let fixture_fonts_checked = fonts_checked;
+
+    // ---------------------------------------------------------------- generated: tally, report
+    let mut exhaustive = true;
+    if let Some(run) = &gen_run {
+        let g = &run.agg;
+        for m in &g.machinery {
+            eprintln!("[C05] generated: {m}");
+        }
+        if !g.machinery.is_empty() {
+            vcore::machinery_error(&format!("{} generated designs could not be written", g.machinery.len()));
+        }
+        let keys = report_generated_hits(&mut rep, &run.cases, &run.option_sets, &g.hits);
+        fonts_checked += g.fonts_checked;
+        bytes_checked += g.bytes_checked;
+        refs_checked += g.refs_checked;
+        fields_traversed += g.fields_traversed;
+        for (k, n) in &g.refs_by_kind {
+            *refs_by_kind.entry(k.clone()).or_insert(0) += n;
+        }
+        untraversed.extend(g.untraversed.iter().cloned());
+        tables_seen.extend(g.tables_seen.iter().cloned());
+        distinct.extend(g.distinct.iter().copied());
+        distinct_nontrivial.extend(g.distinct_nontrivial.iter().copied());
+        variable += g.traits.get("variable").copied().unwrap_or(0);
+        with_composites += g.traits.get("composites").copied().unwrap_or(0);
+        with_layout += g.traits.get("GSUB_or_GPOS").copied().unwrap_or(0);
+        let sample_of = |s: &Option<(usize, usize, usize, Value)>, which: &str| {
+            s.as_ref().map(|(bytes, ci, oi, summary)| {
+                let t = &run.cases[*ci];
+                json!({"generated": which, "case": t.id(), "toggles": t, "features_on": t.atoms(), "option_set": run.option_sets[*oi].0, "bytes": bytes, "summary": summary})
+            })
+        };
+        samples.extend(sample_of(&g.smallest, "smallest font"));
+        samples.extend(sample_of(&g.largest, "largest font"));
+        if let (Some(first), Some(last)) = (run.cases.first(), run.cases.last()) {
+            samples.push(json!({"generated": "first and last case of the enumeration", "first": first.id(), "last": last.id()}));
+        }
+        let failed: u64 = g.failures.values().map(|(n, _)| n).sum();
+        rep.set("generated_cases", run.total_cases as u64);
+        if run.stride > 1 {
+            exhaustive = false;
+            rep.assume(&format!("C05_GEN_STRIDE={}: only every {}th generated case was run (diagnostic mode)", run.stride, run.stride));
+        }
+        rep.set("generated_cases_run", g.designs);
+        rep.set("generated_domains", args.tier.pick(&QUICK, &THOROUGH).describe());
+        rep.set("generated_case_id", "L<layout>-n<notdef>-i<inv>-a<adv>-c<comps, hex bit set>-k<kern>-m<marks>-f<fea>-v<vert>-r<rules>-s<inst>; the meaning of every value is in the doc comments of `Toggles` in c05.rs");
+        rep.set(
+            "generated_option_sets",
+            json!(run.option_sets.iter().map(|(n, o, comp_only)| json!({"name": n, "args": o.cli_args(), "only_designs_with_composites": comp_only})).collect::<Vec<_>>()),
+        );
+        rep.set("generated_compiles", g.compiles);
+        rep.set("generated_fonts_checked", g.fonts_checked);
+        rep.set("generated_compile_failures_not_judged", failed);
+        rep.set("generated_compile_failure_classes", json!(g.failures.iter().map(|(k, (n, first))| json!({"class": k, "count": n, "first": first})).collect::<Vec<_>>()));
+        rep.set("generated_per_option_set_checked_failed", json!(g.per_option.iter().map(|(k, (a, b))| (k.clone(), json!([a, b]))).collect::<BTreeMap<_, _>>()));
+        rep.set("generated_distinct_fonts", g.distinct.len() as u64);
+        rep.set("generated_distinct_nontrivial", g.distinct_nontrivial.len() as u64);
+        rep.set("generated_fonts_with", json!(g.traits));
+        rep.set("generated_fonts_checked_per_toggle_value", json!(g.per_toggle));
+        rep.set("generated_issue_keys", json!(keys));
+        rep.set("generated_wall_s", (run.wall_s * 100.0).round() / 100.0);
+        rep.set("generated_cpu_s", (g.cpu_ns as f64 / 1e7).round() / 100.0);
+        rep.set(
+            "generated_cpu_s_split",
+            json!({
+                "compiling (successful compiles)": (g.compile_cpu_ns as f64 / 1e7).round() / 100.0,
+                "checking (otref + trait counters)": (g.check_cpu_ns as f64 / 1e7).round() / 100.0,
+                "building and writing the sources, failed compiles": (g.cpu_ns.saturating_sub(g.compile_cpu_ns + g.check_cpu_ns) as f64 / 1e7).round() / 100.0,
+            }),
+        );
+        rep.set("generated_cpu_ms_per_compile", if g.compiles > 0 { (g.cpu_ns as f64 / 1e4 / g.compiles as f64).round() / 100.0 } else { 0.0 });
+        if run.capped {
+            exhaustive = false;
+            rep.set("generated_cap_hit", format!("the wall-clock cap was reached after {} of {} generated designs", g.designs, run.cases.len()));
+            rep.assume("the generated family was cut short by its wall-clock cap: see generated_cap_hit");
+        }
+        if g.fonts_checked == 0 {
+            vcore::machinery_error("no generated design compiled: the generator is broken");
+        }
+        if failed * 20 > g.compiles {
+            vcore::machinery_error(&format!("{failed} of {} generated compiles failed: the generator is broken (classes: {:?})", g.compiles, g.failures.keys().collect::<Vec<_>>()));
+        }
+    } else {
+        rep.set("generated_cases", 0u64);
+        exhaustive = false;
+        rep.assume("C05_SKIP_GENERATED is set: the generated family was not run");
+    }
+    if skip_fixtures {
+        exhaustive = false;
+        rep.assume("C05_SKIP_FIXTURES is set: the fixtures were not run");
+    }
     if fonts_checked == 0 {
         vcore::machinery_error("no font was compiled successfully: nothing was checked");
     }
@@ -219,12 +1507,14 @@ fn main() {
     rep.set("distinct_nontrivial", distinct_nontrivial.len() as u64);
     rep.set(
         "rule",
-        "every *.designspace, *.glyphs, *.ufo and *.glyphspackage under /repo/resources/testdata (UFOs and packages are not descended into) plus the generated designs, each compiled by the product binary under every listed option set; every exit-0 font is checked by otref::check_font; non-trivial = distinct font files (content hash) that are variable, or have GSUB/GPOS, or have composite glyphs",
+        "FIXTURES: every *.designspace, *.glyphs, *.ufo and *.glyphspackage under /repo/resources/testdata (UFOs and packages are not descended into), each compiled by the product binary under every listed option set. GENERATED: every combination of the toggle domains in generated_domains (full product in canonical order, minus the impossible combinations named there), each written as UFO(+designspace) and compiled in process under every option set in generated_option_sets. Every successfully compiled font is checked by otref::check_font; non-trivial = distinct font files (content hash) that are variable, or have GSUB/GPOS, or have composite glyphs",
     );
     rep.set("fixture_cases", n_fixtures as u64);
-    rep.set("generated_cases", (cases.len() - n_fixtures) as u64);
+    rep.set("fixture_fonts_checked", fixture_fonts_checked);
+    rep.set("fixture_fonts_with", json!(fixture_traits));
     rep.set("option_sets", json!(OPTION_SETS[..n_option_sets].iter().map(|(n, a)| json!({"name": n, "args": a})).collect::<Vec<_>>()));
-    rep.set("compiles", jobs.len() as u64);
+    rep.set("compiles", jobs.len() as u64 + gen_run.as_ref().map(|r| r.agg.compiles).unwrap_or(0));
+    rep.set("fixture_compiles", jobs.len() as u64);
     rep.set("compile_failures_not_judged", compile_failed);
     rep.set("cases_with_a_compile_failure", json!(failed_cases));
     rep.set("per_option_set_checked_failed", json!(per_option_set.iter().map(|(k, (a, b))| (k.to_string(), json!([a, b]))).collect::<BTreeMap<_, _>>()));
@@ -239,13 +1529,13 @@ fn main() {
     rep.set("tables_seen", json!(tables_seen));
     rep.set("tables_without_reader", json!(untraversed));
     rep.set("samples", samples);
-    rep.set("exhaustive", true);
+    rep.set("exhaustive", exhaustive);
     rep.assume("oracle: otref (hand-written sfnt/glyf/cmap/gvar/post readers, read-fonts typed tables for the rest, skrifa as second reader); a defect both read-fonts and the hand-written checks overlook is not seen");
-    rep.assume("the product binary runs with RAYON_NUM_THREADS=4 (its free-running pool; schedules are C01/C02's subject)");
-    rep.assume("compiles that exit non-zero are counted, not judged (C15 covers them)");
+    rep.assume("fixtures: the product binary runs with RAYON_NUM_THREADS=4 (its free-running pool; schedules are C01/C02's subject); generated designs: the same compiler code in process, jobs run inline");
+    rep.assume("compiles that fail are counted, not judged (C15 covers them); the failure classes of the generated family are listed in generated_compile_failure_classes");
     if args.tier == Tier::Quick {
-        rep.assume("quick tier: option sets default, flatten, skip-features only; thorough adds decompose, decompose-transformed, no-prefer-simple, keep-direction, no-production-names");
+        rep.assume("quick tier, fixtures: option sets default, flatten, skip-features only; thorough adds decompose, decompose-transformed, no-prefer-simple, keep-direction, no-production-names");
+        rep.assume("quick tier, generated: smaller toggle domains (generated_domains) and option sets default, flatten, decompose, no-prefer-simple; thorough: larger domains, all 8 option sets, and all 16 subsets of the four component options on designs with composites");
     }
-    drop(generated_dir);
     rep.finish()
 }
